@@ -13,8 +13,10 @@ import (
 	"github.com/pkg/errors"
 )
 
+// readDiagnostic does not close ch: the caller does, after it has
+// recorded the returned error, so that a consumer that sees the channel
+// closed also sees the error.
 func readDiagnostic(ctx context.Context, f io.Reader, ch chan<- *birch.Document) (err error) {
-	defer close(ch)
 	defer recoverDecoding(&err)
 	buf := bufio.NewReader(f)
 	for {
@@ -42,8 +44,8 @@ func recoverDecoding(err *error) {
 	}
 }
 
+// readChunks does not close o, for the same reason as readDiagnostic.
 func readChunks(ctx context.Context, ch <-chan *birch.Document, o chan<- *Chunk) (err error) {
-	defer close(o)
 	defer recoverDecoding(&err)
 
 	var metadata *birch.Document
